@@ -87,6 +87,11 @@ var baseRules = []ref.RewriteRule{
 	{Old: "a", New: "", Max: -1},
 	{Old: "/a(.)/", New: "${1}x", Max: -1},
 	{Old: "/^/", New: "p.", Max: -1},
+	// regex rules whose pattern is nothing but literals (with and without anchors, escapes, a group):
+	// still regex rules: ${n} expands, anchors anchor
+	{Old: "/a/", New: "${0}${0}", Max: -1},
+	{Old: "/^a$/", New: "c", Max: -1},
+	{Old: `/(\.)b/`, New: "$1$1", Max: -1},
 }
 
 var nots = []string{"", "b", "/b$/"}
